@@ -7,6 +7,7 @@ handlers, post-attack probes, allocation bound per frame (tracemalloc).
 import base64
 import json
 import resource
+import time
 import tracemalloc
 
 from vlib import gen
@@ -19,6 +20,57 @@ TIERS = {
     'thorough': {'budget': 420, 'watchdog': 900, 'shards': 16},
 }
 POOL = ['/', '/a', '/b']
+MAIN_THREAD = True          # CPU-time budgets use signals
+CPU_BUDGET = 3.0            # seconds of process CPU time for ONE frame
+
+
+class FrameStall(BaseException):
+    """Raised by the CPU-time budget (ITIMER_VIRTUAL) around one offender
+    frame: BaseException so that no catch-all of the code under test can
+    swallow it."""
+
+
+class cpu_budget:
+    def __init__(self, seconds):
+        self.seconds = seconds
+
+    def __enter__(self):
+        import signal
+
+        def on_timer(signum, frame):
+            raise FrameStall()
+        self.old = signal.signal(signal.SIGVTALRM, on_timer)
+        signal.setitimer(signal.ITIMER_VIRTUAL, self.seconds)
+        return self
+
+    def __exit__(self, *exc):
+        import signal
+        signal.setitimer(signal.ITIMER_VIRTUAL, 0)
+        signal.signal(signal.SIGVTALRM, self.old)
+        return False
+
+
+def long_run_frames(rng):
+    """Frames whose header fields contain a long run of one character class
+    followed by a character that breaks it - the shape that makes a
+    backtracking scanner explode.  Graded lengths, so that a super-linear
+    cost shows up as a measurable stall before it becomes a hang."""
+    n = rng.choice([16, 18, 20, 22, 24, 26, 28, 40, 200])
+    ch = rng.choice('a1-._~%+:@/ A')
+    run = ch * n
+    breaker = rng.choice(['["x"]', '!', ',', ' ', '\x00', '?', '[', '"', ''])
+    return rng.choice([
+        '2/' + run + breaker,
+        '2/' + run + breaker + ',["ev"]',
+        '0/' + run + breaker,
+        '2' + run + breaker,
+        '2/a,' + run + breaker,
+        '2["' + run + breaker,
+        '5' + run + '-/a,["ev"]',
+        '2/' + (ch + '/') * (n // 2) + breaker,
+    ])
+
+
 UNIDIGITS = '٣७５²'
 
 
@@ -218,6 +270,9 @@ class Attack:
                                  '3"x"', '31"x"', '2"connect"'])]
         elif mode < 0.27:
             sendf = [rng.randbytes(rng.randint(0, 50))]
+        elif mode < 0.33 and ser == 'default':
+            sendf = [long_run_frames(rng)]
+            ctx.count('long_run_frames')
         else:
             sendf = []
             for f in frames:
@@ -251,7 +306,26 @@ class Attack:
                 base = tracemalloc.get_traced_memory()[0]
             self.was_reassembling = \
                 r.T[self.OT].eio_sid in r.sio._binary_packet
-            res = r.step(op)
+            stalled = False
+            cpu0 = time.process_time()
+            try:
+                with cpu_budget(CPU_BUDGET):
+                    res = r.step(op)
+            except FrameStall:
+                stalled = True
+            # (engine.io's catch-all is a bare "except:": the budget's
+            # exception may have been swallowed and logged there)
+            if not stalled:
+                stalled = any(e.get('exc') == 'FrameStall'
+                              for e in res.get('errors') or []) or \
+                    time.process_time() - cpu0 > CPU_BUDGET
+            if stalled:
+                return self.fail(
+                    'a single %d-byte frame kept the server busy for more '
+                    'than %.0f s of CPU time: no other client is served '
+                    'meanwhile' % (size, CPU_BUDGET),
+                    {'frame': repr(op[2])[:300]})
+            ctx.count('frames_cpu_budget_checked')
             if traced:
                 peak = tracemalloc.get_traced_memory()[1] - base
                 ctx.count('frames_allocation_checked')
@@ -465,6 +539,7 @@ def run(ctx):
         resource.setrlimit(resource.RLIMIT_AS, (6 << 30, 6 << 30))
     except Exception:
         pass
+    ctx.require('frames_cpu_budget_checked', 100)
     ctx.require('offender_frames', 2000)
     ctx.require('bystander_events', 100)
     ctx.require('bystander_broadcasts', 100)
